@@ -3,6 +3,7 @@ CONSTANTS
   TolE = 20
   TolVar = 20
   TolMono = 100
+  TolMonoSolverPct = 2
   TolMonoX = 1000
   TolN = 20
   TolW = 10
